@@ -80,6 +80,7 @@ type agglayer struct {
 	hasPrev  bool
 	onSubmit func(i int, c *agglayertypes.Certificate)
 	calls    int
+	settledCalls int // GetLatestSettledCertificateHeader calls = reconciliation attempts
 }
 
 func (a *agglayer) fail() bool {
@@ -146,6 +147,7 @@ func (a *agglayer) GetCertificateHeader(_ context.Context, id common.Hash) (*agg
 func (a *agglayer) GetLatestSettledCertificateHeader(_ context.Context, _ uint32) (*agglayertypes.CertificateHeader, error) {
 	a.mu.Lock()
 	defer a.mu.Unlock()
+	a.settledCalls++
 	if a.fail() {
 		return nil, errScripted
 	}
@@ -296,13 +298,37 @@ func (n *node) start() error {
 	return nil
 }
 
-// reconcile runs the start-up reconciliation once (it retries inside until success or the deadline).
+// reconcile runs the real start-up reconciliation (CheckInitialStatus retries for ever): it is stopped after it has
+// started its third attempt without success (attempts are counted at the scripted Agglayer, not by wall clock).
 func (n *node) reconcile() (ok bool, lastErr string) {
-	ctx, cancel := context.WithTimeout(context.Background(), 60*time.Millisecond)
+	ctx, cancel := context.WithCancel(context.Background())
 	defer cancel()
-	lastErr = n.sender.VerifCheckInitialStatus(ctx)
-	n.ready = lastErr == ""
-	return n.ready, lastErr
+	n.ag.mu.Lock()
+	base := n.ag.settledCalls
+	n.ag.mu.Unlock()
+	done := make(chan string, 1)
+	go func() { done <- n.sender.VerifCheckInitialStatus(ctx) }()
+	deadline := time.After(60 * time.Second)
+	tick := time.NewTicker(2 * time.Millisecond)
+	defer tick.Stop()
+	for {
+		select {
+		case lastErr = <-done:
+			n.ready = lastErr == ""
+			return n.ready, lastErr
+		case <-tick.C:
+			n.ag.mu.Lock()
+			attempts := n.ag.settledCalls - base
+			n.ag.mu.Unlock()
+			if attempts >= 3 {
+				cancel()
+			}
+		case <-deadline:
+			cancel()
+			lastErr = <-done
+			panic("verif: start-up reconciliation did not finish within 60s: " + lastErr)
+		}
+	}
 }
 
 // tick runs exactly one iteration of the real sendCertificates loop; returns the crash point if the node "crashed".
